@@ -133,3 +133,35 @@ func PseudoSum(srcIA, dstIA uint64, rawSrc, rawDst []byte, proto uint8, upper []
 	tail[7] = proto
 	return OnesSum(ia[:], rawDst, rawSrc, tail[:], upper)
 }
+
+// EpicHVF is the EPIC hop validation field: the first four bytes of the last block of an AES-CBC-MAC
+// (zero IV) keyed with the hop's full 16-byte MAC over
+//
+//	flags (source address length code) | path timestamp (4) | packet id (8) | SrcIA (8) | source
+//	host address | payload length (2) | zero padding to a multiple of 16
+func EpicHVF(auth [16]byte, srcAddrLenCode uint8, pathTimestamp uint32, pktTimestamp, pktCounter uint32, srcIA uint64, srcAddr []byte, payloadLen uint16) [4]byte {
+	in := []byte{srcAddrLenCode & 3}
+	in = binary.BigEndian.AppendUint32(in, pathTimestamp)
+	in = binary.BigEndian.AppendUint32(in, pktTimestamp)
+	in = binary.BigEndian.AppendUint32(in, pktCounter)
+	in = binary.BigEndian.AppendUint64(in, srcIA)
+	in = append(in, srcAddr...)
+	in = binary.BigEndian.AppendUint16(in, payloadLen)
+	for len(in)%16 != 0 {
+		in = append(in, 0)
+	}
+	c, err := aes.NewCipher(auth[:])
+	if err != nil {
+		panic(err)
+	}
+	var x [16]byte
+	for i := 0; i < len(in); i += 16 {
+		for j := 0; j < 16; j++ {
+			x[j] ^= in[i+j]
+		}
+		c.Encrypt(x[:], x[:])
+	}
+	var out [4]byte
+	copy(out[:], x[:4])
+	return out
+}
